@@ -87,4 +87,14 @@ PROPS = {
         "trusted_base": ["atomicity of a single state.Get / state.Set (mutex in LevelDBState); the Go memory model and pre-emption inside a store call are not modelled"],
         "assumptions": ["pairs covered in this round: operation result x {plain message, operation-producing message}; approve-participation, finish-reinit and state reset against the poller are not yet enumerated"],
     },
+    "C01": {
+        "props": "Props/C01.v", "scenarios": ["c01"],
+        "rule": "real kyber key sets for (n,t) in {(2,2),(3,2),(4,3),(5,2)} [thorough: ten configurations up to (9,5)]: for every signer subset of size >= t (at most 40 per configuration, seeded) and 3 (8) arrival orders, the REAL reconstructThresholdSignature (hook) on a crafted signing-phase round: every signature must verify with prysm under the group key over the proposed payload and be byte-identical across subsets; t-1 signers, a corrupt share and a share of a foreign key must be refused. The same shares are combined in Z_r by the extracted Coq Lagrange function and compared with kyber's group secret. Plus real ceremonies (3 nodes + 3 airgapped machines, and 5+5 with t=2): two batches answered by a seeded t-subset, every node's stored signatures verified and compared.",
+        "exhaustive": {"quick": False, "thorough": False}, "trusted_base": ["BLS12-381 arithmetic, pairing, hash-to-curve, ECIES and the Pedersen DKG bookkeeping are kyber's; prysm/blst is the independent verifier; the theorems are over an arbitrary field and module (MathComp) - that kyber's scalars form a field and its groups are modules over it is the algebraic contract, exercised on every run", "Z_r arithmetic of Crypto/Zr.v (extended Euclid, Horner) is executable and unproved; its results are compared with kyber's scalars on every run", "dealers' secret polynomials are read through the verif hook (dkg.VerifInstance)"], "assumptions": [],
+    },
+    "C02": {
+        "props": "Props/C02.v", "scenarios": ["c02"],
+        "rule": "real ceremonies with real airgapped machines and hot nodes for (n,t) in {(2,2),(3,2),(4,3),(5,2)} x 2 delivery orders [thorough: 7 configurations x 4 orders]: every machine's share must lie on its public polynomial (s_i*G = P(i+1)), all public polynomials equal with exactly t commitments, the constant term = commitment of the sum of the dealers' secrets = the key every node recorded, every hot node retains that polynomial, t-1 shares are refused by tbls.Recover. The extracted Coq Pedersen function recomputes every share from the dealers' secret coefficients (hook) in Z_r and must equal the machine's share scalar. Deviating announcements (other key / other polynomial, any position) are part of the C05 exploration alphabet.",
+        "exhaustive": {"quick": False, "thorough": False}, "trusted_base": ["BLS12-381 arithmetic, pairing, hash-to-curve, ECIES and the Pedersen DKG bookkeeping are kyber's; prysm/blst is the independent verifier; the theorems are over an arbitrary field and module (MathComp) - that kyber's scalars form a field and its groups are modules over it is the algebraic contract, exercised on every run", "Z_r arithmetic of Crypto/Zr.v (extended Euclid, Horner) is executable and unproved; its results are compared with kyber's scalars on every run", "dealers' secret polynomials are read through the verif hook (dkg.VerifInstance)"], "assumptions": [],
+    },
 }
